@@ -45,6 +45,18 @@ struct VecRunner {
 		if constexpr (KIND != 2) { if(c.size()) { front = value_of(c.front()); back = value_of(c.back()); } }
 		return obs_json(c.size(), c.empty() ? 1 : 0, front, back, idx, it, {});
 	}
+	// the same observation through the const overloads (operator[], begin/end, front/back, data) - a mutation campaign
+	// showed that the const twin of an accessor can be broken while the non-const one is observed
+	std::string observe_const(int d) {
+		const C &c = sl.at(d);
+		std::vector<long long> idx, it;
+		for(size_t i = 0; i < c.size(); i++) idx.push_back(value_of(c[i]));
+		for(auto p = c.begin(); p != c.end(); ++p) it.push_back(value_of(*p));
+		long long front = -1, back = -1;
+		if constexpr (KIND != 2) { if(c.size()) { front = value_of(c.front()); back = value_of(c.back()); } }
+		if(c.size() && (value_of(*c.data()) != idx[0] || value_of(*sl.at(d).data()) != idx[0])) front = -7;     // data() names the first element
+		return obs_json(c.size(), c.empty() ? 1 : 0, front, back, idx, it, {});
+	}
 	void begin() {
 		sl.construct_default(1); sl.construct_default(2);
 		addrs().add_pseudo(sl.store[0], sizeof(C), 1001); addrs().add_pseudo(sl.store[1], sizeof(C), 1002);
@@ -180,6 +192,7 @@ static void run_one(R &r, const std::string &kind, const std::string &elem, int 
 			if(chk) {
 				bool lo = ledger_on(); ledger_on() = false;      // observation copies are not part of the history
 				ev.raw("obs", "[" + r.observe(1) + "," + r.observe(2) + "]").i("eq", r.equal());
+				if constexpr (requires { r.observe_const(1); }) ev.raw("cobs", "[" + r.observe_const(1) + "," + r.observe_const(2) + "]");
 				ledger_on() = lo;
 			}
 			ev.emit();
